@@ -100,6 +100,10 @@ func decodeFormat4(in []byte, code2rune func(c int) rune) (Subtable, error) {
 
 // Lookup implements the Subtable interface.
 func (cmap Format4) Lookup(r rune) glyph.ID {
+	if r < 0 || r > 0xFFFF {
+		// the format covers the Basic Multilingual Plane only
+		return 0
+	}
 	return cmap[uint16(r)]
 }
 
